@@ -4,7 +4,9 @@ The model tracks, per dealing phase, the obligations towards every player still 
 board: a burn first iff prescribed; the prescribed hole cards with the prescribed facing; the prescribed
 board cards per board; in a draw round one stand-pat-or-discard per player and replacements equal in
 number and facing to the discards; the stud fallback to shared board cards when the cards not in play
-cannot cover the street.  Single run-out only (run-outs are C14's business).
+cannot cover the street.  Several run-outs (cash games): the agreed count r is computed from the logged
+RunoutCountSelection records alone (all expressed preferences equal -> that count, otherwise one), and the streets
+after the one on which the selection was made are then prescribed r times in a row.
 """
 from __future__ import annotations
 from collections import Counter
@@ -32,6 +34,10 @@ class RDeal:
         self.in_phase = False
         self.fallbacks = 0
         self.phases = 0
+        self.selections = []           # run-out preferences in log order (None = no preference)
+        self.return_street = None
+        self.returns_left = None
+        self.runouts = 1
 
     def in_play(self):
         return sum(len(h) for h in self.hands) + self.board_cards
@@ -39,7 +45,15 @@ class RDeal:
     def begin(self):
         self.street += 1
         if self.street >= len(self.streets):
-            raise DealError('street', 'a dealing phase began after the last street')
+            if self.returns_left is None:
+                prefs = {c for c in self.selections if c is not None}
+                self.runouts = prefs.pop() if len(prefs) == 1 else 1
+                self.returns_left = self.runouts - 1 if self.return_street is not None else 0
+            if self.returns_left <= 0:
+                raise DealError('street', 'a dealing phase began after the last street'
+                                + (f' of the last of {self.runouts} run-out(s)' if self.selections else ''))
+            self.returns_left -= 1
+            self.street = self.return_street
         burn, facings, board, draw = self.streets[self.street]
         self.in_phase = True
         self.phases += 1
@@ -81,6 +95,11 @@ class RDeal:
                                     f'{[len(p) for p in self.pend_hole]}, board cards pending {self.pend_board}, '
                                     f'draws pending {self.pend_draw}')
                 self.in_phase = False
+            if t == 'RunoutCountSelection':
+                if self.returns_left is not None:
+                    raise DealError('runout', 'a run-out count was selected after the run-outs had begun')
+                self.selections.append(op.runout_count)
+                self.return_street = self.street + 1
             if t == 'HoleCardsShowingOrMucking' and op.hole_cards:
                 i = op.player_index
                 self.hands[i] = [(c, True if c else f) for c, (_, f) in zip(op.hole_cards, self.hands[i])] \
